@@ -622,9 +622,24 @@ def selftest(ctx):
             raise MachineryError("selftest: mutation anchor not found")
         open(f, "w").write(text.replace(old, "return self.create_node(node_type=OperatorKind.LT, args=(left, right))"))
         root = os.path.dirname(os.path.dirname(os.path.dirname(os.path.abspath(__file__))))
+        # the nested run must not leave the mutant's evidence / replay files behind
+        evf = os.path.join(root, "evidence", "C16.json")
+        saved = open(evf).read() if os.path.exists(evf) else None
+        rdir = os.path.join(root, "replay", "C16")
+        before = set(os.listdir(rdir)) if os.path.isdir(rdir) else None
         pr = subprocess.run([os.path.join(root, "check"), "C16"], env=dict(os.environ, VERIF_REPO=tmp), stdout=subprocess.PIPE, stderr=subprocess.STDOUT, text=True, timeout=1800)
         hit = pr.returncode == 1 and "VIOLATION property=C16" in pr.stdout
         print("%-7s source mutation 'GT not mirrored' -> exit %d" % ("caught" if hit else "MISSED", pr.returncode))
+        if saved is not None:
+            open(evf, "w").write(saved)
+        elif os.path.exists(evf):
+            os.remove(evf)
+        if os.path.isdir(rdir):
+            for f in os.listdir(rdir):
+                if before is None or f not in before:
+                    os.remove(os.path.join(rdir, f))
+            if not os.listdir(rdir):
+                os.rmdir(rdir)
         rc = rc or (0 if hit else 1)
     finally:
         shutil.rmtree(tmp, ignore_errors=True)
